@@ -16,7 +16,7 @@ variable (strict fix : Bool) (orient : Mat → List (Option Nat)) (sq : Rat → 
 theorem refuses_space_coupled (g : Img)
     (h : ∃ r c, r < g.n - 3 ∧ c < 3 ∧
       (atol < rabs (entry g.aff (r + 3) c) ∨ atol < rabs (entry g.aff c (r + 3)))) :
-    body strict fix orient sq g = .error .nifti := by
+    body strict fix orient sq g = .error (.nifti .spaceCoupled) := by
   have hd : spaceDecoupled g = false := by
     by_contra hne
     have ht : spaceDecoupled g = true := by simpa using hne
@@ -28,12 +28,15 @@ theorem refuses_space_coupled (g : Img)
   unfold body; simp [hd]
 
 /-- Clause "non-spatial axes coupled to each other": two entries above `TINY` in one
-    column (or one row) of the non-spatial block make `nipy2nifti` raise. -/
+    column (or one row) of the non-spatial block make `nipy2nifti` raise — at the site
+    'Non space axes not orthogonal to each other' when the space check passed, at the site of the
+    space check otherwise. -/
 theorem refuses_nonspace_coupled (g : Img) (a b c : Nat)
     (ha : a < g.n - 3) (hb : b < g.n - 3) (hc : c < g.n - 3) (hab : a ≠ b)
     (h : (tiny < rabs (entry g.aff (a + 3) (c + 3)) ∧ tiny < rabs (entry g.aff (b + 3) (c + 3))) ∨
          (tiny < rabs (entry g.aff (c + 3) (a + 3)) ∧ tiny < rabs (entry g.aff (c + 3) (b + 3)))) :
-    body strict fix orient sq g = .error .nifti := by
+    body strict fix orient sq g =
+      .error (.nifti (if spaceDecoupled g = true then .nonspaceCoupled else .spaceCoupled)) := by
   have hn : nspCoupled g = true := by
     unfold nspCoupled
     simp only [Bool.or_eq_true, List.any_eq_true, List.mem_range, decide_eq_true_eq]
@@ -54,7 +57,7 @@ theorem accept_implies_decoupled (g : Img) (h : Hdr)
     the image cannot be reordered to XYZ and `nipy2nifti` raises. -/
 theorem refuses_without_xyz_names (g : Img)
     (h : ∀ nm ∈ g.outNames, name2xyz strict nm ≠ some 0) :
-    nipy2nifti strict fix orient sq g = .error .nifti := by
+    nipy2nifti strict fix orient sq g = .error (.nifti .reorder) := by
   have hx := xyzOrder_none_of_no_x strict g.outNames h
   unfold nipy2nifti asXyzImage xyzAffine
   simp [hx]
@@ -261,6 +264,93 @@ theorem find_time_like_canonical_name (g : Img) (tl : TL)
     (h : findTimeLike orient fix g = .ok (some tl)) : tl.name ∈ tlOrdered :=
   findTL_name_mem _ _ _ _ _ tl h
 
+/-! ## Every `raise NiftiError` site of the source is a live branch of the model -/
+
+/-- when the checks before it pass, more than four non-spatial axes stop at the site
+    'Too many dimensions to convert' (first occurrence) -/
+theorem too_many_dims_site (g : Img) (xyz : Mat) (c : Nat × Nat) (hn : 7 < g.n)
+    (hd : spaceDecoupled g = true) (hc : nspCoupled g = false)
+    (hx : xyzAffine strict orient g = some xyz) (hs : spaceCodes strict sq g xyz = .ok c) :
+    body strict fix orient sq g = .error (.nifti .tooMany) := by
+  unfold body
+  have h1 : ¬ g.n - 3 = 0 := by omega
+  have h2 : g.n - 3 > 4 := by omega
+  simp only [hd, hc, hx, hs, Bool.not_true, Bool.false_eq_true, if_false, if_neg h1, if_pos h2]
+
+/-- seven axes, no time-like axis: the second 'Too many dimensions to convert' -/
+theorem seven_dims_without_time_site (g : Img) (xyz : Mat) (c : Nat × Nat) (hn : g.n = 7)
+    (hd : spaceDecoupled g = true) (hc : nspCoupled g = false)
+    (hx : xyzAffine strict orient g = some xyz) (hs : spaceCodes strict sq g xyz = .ok c)
+    (ht : findTimeLike orient fix g = .ok none) :
+    body strict fix orient sq g = .error (.nifti .tooManyNoTime) := by
+  unfold body
+  have h1 : ¬ g.n - 3 = 0 := by omega
+  have h2 : ¬ g.n - 3 > 4 := by omega
+  have h3 : g.n - 3 = 4 := by omega
+  simp only [hd, hc, hx, hs, Bool.not_true, Bool.false_eq_true, if_false, if_neg h1, if_neg h2, ht, finish,
+    if_pos h3]
+
+/-- an orientation function good enough for permutation-like affines: for every input axis the
+    first output row with a non-zero entry -/
+def firstNonzeroOrient (m : Mat) : List (Option Nat) :=
+  (List.range (m.length - 1)).map (fun c => (List.range (m.length - 1)).find? (fun r => entry m r c ≠ 0))
+
+def mniOut (extra : List String) : List String := spaceTuple "mni" ++ extra
+
+/-- `diag(d) ` with translation column `t` as an (n+1)×(n+1) homogeneous affine -/
+def diagAff (d t : List Rat) : Mat :=
+  (List.range d.length).map (fun r => (List.range d.length).map (fun c => if r = c then d.getD r 0 else 0) ++ [t.getD r 0])
+    ++ [List.replicate d.length 0 ++ [1]]
+
+def mkImg (ins outs : List String) (aff : Mat) : Img :=
+  { inNames := ins, outNames := outs, aff := aff, shape := List.replicate ins.length 2,
+    axes := (List.range ins.length).map some }
+
+/-- one image per `raise` site of `nipy2nifti` / `_find_time_like` (with the `fix0` flag to use) -/
+def siteWitness : Site → Bool × Img
+  | .reorder => (true, mkImg ["i", "j", "k"] ["a", "b", "c"] (diagAff [2, 3, 4] [0, 0, 0]))
+  | .spaceCoupled => (true, mkImg ["i", "j", "k", "t"] (mniOut ["t"])
+      [[2, 0, 0, 0, 0], [0, 3, 0, 0, 0], [0, 0, 4, 0, 0], [1, 0, 0, 5, 0], [0, 0, 0, 0, 1]])
+  | .nonspaceCoupled => (true, mkImg ["i", "j", "k", "t", "l"] (mniOut ["t", "u"])
+      [[2, 0, 0, 0, 0, 0], [0, 3, 0, 0, 0, 0], [0, 0, 4, 0, 0, 0], [0, 0, 0, 5, 1, 0], [0, 0, 0, 0, 6, 0],
+       [0, 0, 0, 0, 0, 1]])
+  | .world => (true, mkImg ["i", "j", "k"] [xyzName "mni" 0, xyzName "scanner" 1, xyzName "mni" 2]
+      (diagAff [2, 3, 4] [0, 0, 0]))
+  | .unknownAffine => (true, mkImg ["i", "j", "k"] (spaceTuple "unknown") (diagAff [1, 1, 1] [0, 0, 0]))
+  | .tooMany => (true, mkImg ["i", "j", "k", "t", "l", "m", "n", "o"] (mniOut ["t", "u", "v", "w", "q"])
+      (diagAff [2, 3, 4, 1, 2, 3, 4, 5] [0, 0, 0, 0, 0, 0, 0, 0]))
+  | .tooManyNoTime => (true, mkImg ["i", "j", "k", "l", "m", "n", "o"] (mniOut ["u", "v", "w", "q"])
+      (diagAff [2, 3, 4, 1, 2, 3, 4] [0, 0, 0, 0, 0, 0, 0]))
+  | .timeNoOutput => (false, mkImg ["i", "j", "k", "t"] (mniOut ["t"]) (diagAff [2, 3, 4, 0] [0, 0, 0, 14]))
+  | .tlBothUnmatched => (false, mkImg ["i", "j", "k", "t", "l"] (mniOut ["t", "u"])
+      [[2, 0, 0, 0, 0, 0], [0, 3, 0, 0, 0, 0], [0, 0, 4, 0, 0, 0], [0, 0, 0, 0, 1, 0], [0, 0, 0, 0, 0, 0],
+       [0, 0, 0, 0, 0, 1]])
+  | .tlBothMismatch => (true, mkImg ["i", "j", "k", "t", "l"] (mniOut ["u", "t"])
+      (diagAff [2, 3, 4, 5, 6] [0, 0, 0, 0, 0]))
+  | .tlInMatchesOther => (true, mkImg ["i", "j", "k", "t"] (mniOut ["hz"]) (diagAff [2, 3, 4, 5] [0, 0, 0, 0]))
+  | .tlOutMatchesOther => (true, mkImg ["i", "j", "k", "hz"] (mniOut ["t"]) (diagAff [2, 3, 4, 5] [0, 0, 0, 0]))
+  | .lt3d => (true, mkImg ["i", "j"] ["x", "y"] (diagAff [1, 1] [0, 0]))
+
+/-- **every modelled refusal branch is live and lands on its own site**: for each `raise NiftiError`
+    statement of `nipy2nifti` and `_find_time_like` there is an image on which the model raises
+    exactly there (`raise_sites_modelled` in `Props/C03H` ties the list of sites to the source). -/
+theorem every_site_reachable (s : Site) (hs : s ≠ .lt3d) :
+    nipy2nifti true (siteWitness s).1 firstNonzeroOrient id (siteWitness s).2 = .error (.nifti s) := by
+  cases s <;> first | exact absurd rfl hs | decide +kernel
+
+/-- the site of `nifti2nipy` -/
+theorem refuses_fewer_than_three_dims (h : Hdr) (hs : h.shape.length < 3) :
+    nifti2nipy h = .error (.nifti .lt3d) := by
+  unfold nifti2nipy
+  simp [hs]
+
+/-- and conversely a NIfTI image with at least three dimensions always loads -/
+theorem loads_three_dims_and_more (h : Hdr) (hs : 3 ≤ h.shape.length) : ∃ g, nifti2nipy h = .ok g := by
+  unfold nifti2nipy
+  have : ¬ h.shape.length < 3 := by omega
+  simp only [this, if_false]
+  split_ifs <;> exact ⟨_, rfl⟩
+
 /-! ## Non-vacuity -/
 
 example : findTimeLike exOrient true exImg = .ok (some ⟨3, some 3, "t"⟩) := by decide +kernel
@@ -271,6 +361,6 @@ example : (finish exImg (header0 exImg (xyzBlock exImg) 4 4) [5 / 2]
 example : spaceDecoupled exImg = true ∧ nspCoupled exImg = false := by decide +kernel
 example : exImg.shape.length = exImg.n ∧ 3 < exImg.n ∧ 3 - 3 < exImg.n - 3 := by decide
 example : spaceCodes true id { exImg with outNames := ["foo-x", "foo-y", "foo-z", "t"] } [] =
-    .error .nifti := by decide +kernel
+    .error (.nifti .world) := by decide +kernel
 
 end NipyVerif.C03
